@@ -1,0 +1,50 @@
+//go:build verif
+
+// Verification hooks: thin exported wrappers around unexported functions, compiled only
+// with `-tags verif`. Add-only; with the tag off nothing changes.
+package security
+
+import (
+	"context"
+	"net"
+
+	"github.com/bbockelm/cedar/stream"
+)
+
+// VerifValidateFSAuthPath exposes validateFSAuthPath.
+func VerifValidateFSAuthPath(dirPath string, remote bool, peerAddr net.Addr) (string, error) {
+	return validateFSAuthPath(dirPath, remote, peerAddr)
+}
+
+// VerifFSAddrLeaf exposes fsAddrLeaf.
+func VerifFSAddrLeaf(leaf string, remote bool) (ip, port string, ok bool) {
+	return fsAddrLeaf(leaf, remote)
+}
+
+// VerifVerifyFSPathEndpoint exposes verifyFSPathEndpoint.
+func VerifVerifyFSPathEndpoint(nameIP, namePort string, peerAddr net.Addr) error {
+	return verifyFSPathEndpoint(nameIP, namePort, peerAddr)
+}
+
+// VerifFSAuthConsts exposes the base directory, the path size limit and the sources of the
+// three leaf-name regular expressions.
+func VerifFSAuthConsts() (base string, maxDirPath int, localRE, remoteRE, suffixRE string) {
+	return fsAuthBaseDir, MaxDirPathSize, fsAuthLocalLeafRE.String(), fsAuthRemoteLeafRE.String(), fsSuffixRE.String()
+}
+
+// VerifFSAuthClient runs the client side of FS / FS_REMOTE authentication on s.
+func VerifFSAuthClient(ctx context.Context, s *stream.Stream, remote bool) error {
+	cfg := &SecurityConfig{}
+	a := &Authenticator{config: cfg, stream: s}
+	return a.performFSAuthentication(ctx, &SecurityNegotiation{IsClient: true, ClientConfig: cfg, ServerConfig: cfg}, remote)
+}
+
+// VerifFSAuthServer runs the server side of FS / FS_REMOTE authentication on s and returns
+// the identity it recorded.
+func VerifFSAuthServer(ctx context.Context, s *stream.Stream, remote bool) (string, error) {
+	cfg := &SecurityConfig{}
+	a := &Authenticator{config: cfg, stream: s}
+	neg := &SecurityNegotiation{IsClient: false, ClientConfig: cfg, ServerConfig: cfg}
+	err := a.performFSAuthentication(ctx, neg, remote)
+	return neg.User, err
+}
